@@ -588,6 +588,9 @@ def model(case, posix_order=False, explicit_wins=False, nonlast_err_captured=Fal
                 elif alias and not threaded:
                     if "C07-F12" in defects:
                         sink = direct       # ProcProxy does not redirect sys.stdout / sys.stderr for the alias body
+                    elif "C07-F15" in defects and stream == "e" and (cls == "m" or (kind == "xnest" and cls == "c")):
+                        sink = direct       # stderr of a command run inside a *nested* alias: the nested alias thread's tee
+                                            # looks the shell's stderr up itself (a race: 10-40 % of the runs)
                 elif cls == "cn":
                     pass
                 elif cls not in PY_CLASSES and not inner_captured and "C07-F9" in defects:
@@ -656,7 +659,7 @@ def expectations(case, defects=frozenset()):
 # recorded findings: shape predicates (which cases a defect can touch at all)
 
 FINDINGS = ("C07-F1", "C07-F2", "C07-F3", "C07-F4", "C07-F5", "C07-F6", "C07-F7", "C07-F8", "C07-F9", "C07-F10", "C07-F11",
-            "C07-F12", "C07-F13", "C07-F14")
+            "C07-F12", "C07-F13", "C07-F14", "C07-F15")
 
 
 def _stage_sems(st):
@@ -730,6 +733,8 @@ def _applicable(case):
         out.append("C07-F11")
     if any(u and _body_classes(s) for u, s in zip(unthr, stages)):
         out.append("C07-F12")
+    if any(u and ("m" in _body_classes(s) or s["kind"] == "xnest") for u, s in zip(unthr, stages)):
+        out.append("C07-F15")
     if any(a and "cn" in _body_classes(s) for (a, _t), s in zip(kinfo, stages)):
         out.append("C07-F13")
     if _racy_stages(case):
